@@ -87,7 +87,7 @@ class Stage:
                     raise Undecided("anchor file lost: %s" % repo_file)
                 self.hashes[repo_file] = sha256(src)
                 self._append(repo_file,
-                             '#[cfg(any(kani, verif_replay))]\n#[path = "%s"]\nmod %s;\n'
+                             '#[cfg(any(kani, verif_replay))]\n#[path = "%s"]\npub(crate) mod %s;\n'
                              % (os.path.join(CONTRACTS, contract), mod))
                 self.injected.append((repo_file, contract, mod))
                 entries += re.findall(r"replay_table!\(\s*(\w+)\s*;", open(os.path.join(CONTRACTS, contract)).read())
